@@ -3,7 +3,7 @@
    assert_unreachable, le ge sle sge ne ceil32, select), tied to vyper/ir/compile_ir.py by exact output equality on
    seeded random trees; the opcode tables are regenerated from the source (GenUtils.v). *)
 From Coq Require Import ZArith List String Lia.
-From Verif Require Import Base.Word256 Base.PyInt C15.Syntax C15.GenUtils C15.Peephole C15.Lower C15.LowerSound C15.LowerFlow C15.FlowSound C15.RetRewrite C15.RetRewriteSound C15.StmtSound.
+From Verif Require Import Base.Word256 Base.PyInt C15.Syntax C15.GenUtils C15.Peephole C15.Lower C15.LowerSound C15.LowerFlow C15.FlowSound C15.RetRewrite C15.RetRewriteSound C15.StmtSound C15.StmtLabels.
 From Verif Require C15.OptTree C15.MergeSound C15.PropsOpt.
 Import ListNotations.
 Open Scope Z_scope.
@@ -184,3 +184,41 @@ Qed.
 Print Assumptions opt_then_lower_sound.
 Example stmt_hypotheses_satisfiable : StmtOk TrSem tr_ops.
 Proof. exact stmt_ok_satisfiable. Qed.
+
+(* Whole programs (StmtLabels.v): for compile_to_assembly of a tree of the fragment the label hypotheses hold -- the placed
+   labels are pairwise distinct (every mksymbol name is placed at most once), the shared revert label is not among them
+   and its block is present -- so from the empty stack the emitted program realises the meaning of the tree; and the
+   program emitted for the OPTIMISED tree realises the meaning of the ORIGINAL tree. *)
+Theorem lower_program_stmt_sound :
+  forall (M : Sem) (opsem : string -> list Z -> St M -> outcome (St M) (Hl M)), StmtOk M opsem ->
+  forall e code, lower_top e = Ok code -> frag e ->
+  exists body, (exists rest, code = (body ++ Op "STOP" :: rest)%list) /\
+    forall st, Reach M opsem code (0%nat, [], st) (eval M e st)
+                 (fun v st' => (List.length body, (if Nat.eqb (valency e) 1 then [VZ v] else []), st')).
+Proof. exact lower_top_stmt. Qed.
+Print Assumptions lower_program_stmt_sound.
+Theorem opt_then_lower_program_sound :
+  forall (M : Sem) (opsem : string -> list Z -> St M -> outcome (St M) (Hl M)), SemOk M -> MergeSound.MemOk M -> StmtOk M opsem ->
+  forall cancun e e' code, wf e -> OptTree.optimize cancun e = Ok e' -> frag e' -> lower_top e' = Ok code ->
+  exists body, (exists rest, code = (body ++ Op "STOP" :: rest)%list) /\
+    forall st, Reach M opsem code (0%nat, [], st) (eval M e st)
+                 (fun v st' => (List.length body, (if Nat.eqb (valency e') 1 then [VZ v] else []), st')).
+Proof.
+  intros M opsem SO MO OK cancun e e' code W OPT FR L.
+  destruct (PropsOpt.optimize_sound M SO MO cancun e e' W OPT) as [EQ _].
+  destruct (lower_top_stmt M opsem OK e' code L FR) as (body & HB & R). exists body. split; [exact HB|].
+  intros st. rewrite (EQ st). apply R.
+Qed.
+Print Assumptions opt_then_lower_program_sound.
+(* non-vacuity: a tree with effects under a branch and an assert is in the fragment and is lowered *)
+Example stmt_fragment_nonvacuous :
+  let e := Node "seq" [Node "mstore" [Lit 0; Node "add" [Node "sload" [Lit 1]; Lit 2]];
+                       Node "if" [Node "lt" [Node "mload" [Lit 0]; Lit 10]; Node "sstore" [Lit 1; Lit 7]; Node "sstore" [Lit 2; Lit 8]];
+                       Node "assert" [Node "iszero" [Node "sload" [Lit 2]]]] in
+  frag e /\ exists code, lower_top e = Ok code.
+Proof.
+  split.
+  - cbn. repeat split; try reflexivity; try (left; reflexivity); try (right; reflexivity); try (cbn; lia);
+      try (intros C; cbn in C; intuition discriminate).
+  - eexists. vm_compute. reflexivity.
+Qed.
